@@ -671,10 +671,70 @@ func runSignerItemCase(o *hx.Out, k int, r *prng.R, u *universe) {
 	o.Seen(line)
 }
 
+// runScopeStringCase: ScopesFromString on generated scope strings (names in any order, blanks, repetitions,
+// unknown / empty / wrongly-cased names, Global with others), and a whole Signer in JSON with such a scope and
+// lists of any length.
+func runScopeStringCase(o *hx.Out, k int, r *prng.R, u *universe) {
+	names := []string{"None", "CalledByEntry", "CustomContracts", "CustomGroups", "WitnessRules", "Global"}
+	var parts []string
+	n := []int{0, 1, 1, 2, 2, 3, 4}[r.Intn(7)]
+	for i := 0; i < n; i++ {
+		nm := names[r.Intn(len(names))]
+		if r.Chance(1, 8) {
+			nm = []string{"", "Rules", "calledbyentry", "CalledByEntry CustomGroups", "Fancy", "global", "0x01"}[r.Intn(7)]
+		}
+		if r.Chance(1, 2) {
+			nm = strings.Repeat(" ", r.Intn(3)) + nm + strings.Repeat(" ", r.Intn(3))
+		}
+		parts = append(parts, nm)
+	}
+	str := strings.Join(parts, ",")
+	sc, err := transaction.ScopesFromString(str)
+	obs := "err"
+	if err == nil {
+		obs = fmt.Sprintf("ok %d", byte(sc))
+		if _, e2 := transaction.ScopesFromByte(byte(sc)); e2 != nil {
+			o.Fail("json-scope-admits-what-binary-refuses", k, "scopes=%q -> %#x", str, byte(sc))
+		}
+	}
+	o.Count("shapes:scope-string=" + strings.Fields(obs)[0])
+	o.Line("sfs "+hx.Hex([]byte(str)), obs)
+	o.Seen("sfs/" + str)
+
+	// a whole signer in JSON (not modelled beyond its scope: judged by the oracle only)
+	nc := []int{0, 1, 2, 16, 17, 20}[r.Intn(6)]
+	var cs []string
+	for i := 0; i < nc; i++ {
+		cs = append(cs, `"0x`+u.hashes[r.Intn(len(u.hashes))].StringLE()+`"`)
+	}
+	text := fmt.Sprintf(`{"account":"0x%s","scopes":"%s","allowedcontracts":[%s]}`, u.hashes[0].StringLE(), str, strings.Join(cs, ","))
+	var sg transaction.Signer
+	jerr := json.Unmarshal([]byte(text), &sg)
+	switch {
+	case jerr != nil:
+		o.Count("shapes:signer-json=err")
+		if err == nil {
+			o.Fail("signer-json-rejects-valid", k, "text=%s err=%v", text, jerr)
+		}
+	default:
+		o.Count("shapes:signer-json=ok")
+		if err != nil || sg.Scopes != sc {
+			o.Fail("signer-json-scope-differs", k, "text=%s scopes=%#x", text, byte(sg.Scopes))
+		}
+		if len(sg.AllowedContracts) > 16 {
+			o.Count("shapes:signer-json-accepts-more-than-16-contracts") // unlike DecodeBinary / FromStackItem: measured, see the report
+		}
+		if sg.Scopes&transaction.CustomContracts == 0 && len(sg.AllowedContracts) > 0 {
+			o.Count("shapes:signer-json-accepts-contracts-without-the-scope-bit")
+		}
+	}
+}
+
 func ptrSigner(s transaction.Signer) *transaction.Signer { return &s }
 
 func runShapesCase(o *hx.Out, k int, r *prng.R, u *universe) {
 	runSignerItemCase(o, k, r, u)
+	runScopeStringCase(o, k, r, u)
 	var t *cond
 	switch r.Intn(5) {
 	case 0:
